@@ -18,7 +18,7 @@ ID = "C53"
 ENGINE = "fs"
 LEVEL = "fault_enumeration"
 TECHNIQUE = "deterministic simulation: crash at every interposed filesystem call (+ torn writes) of seeded LogFile histories, contiguous-suffix oracle"
-QUICK_RUNS = 900
+QUICK_RUNS = 3000
 BATCH = 10
 COMPONENTS = {"real": ["twisted.python.logfile.LogFile/BaseLogFile (write, rotate, reopen, close, listLogs, _openFile)", "the real filesystem under a scratch directory (reads)"],
               "stub": ["process/kernel boundary for mutating calls (detsim.fs interposer: crash points, torn writes)"]}
